@@ -12,7 +12,7 @@ import (
 
 func init() {
 	register(&Rule{ID: "R-must-pass-limits", Floor: 7, Run: ruleVMMustLimits,
-		Doc: "resource limits are tests every execution passes: (1) every cycle of the VM's outer loop in Core.Run decides `len(Stack)` against Limits.StackMaxSize and `len(CallStack)` against Limits.CallStackMaxSize before any instruction runs, and each overflow branch sends a fatal interrupt on the core's signal channel and returns; the instruction quantum between two such cycles is bounded by a compile-time constant; (2) the Opcode_AddMempointer case compares Core.MemoryPointer with Limits.MaxMemorySize after updating it, the overflow branch returns the fatal interrupt, and the continuing branch establishes MemoryPointer <= len(Memory)-1 for the frame indexing Memory[MemoryPointer-slot] — the bound is derived from the allocation `make(..., MaxMemorySize±k)` of Core.Memory and from the index expression, not from the operator text; (3) the interpreter's callFunc decides the call-depth counter against its limit before it evaluates anything or increments the counter, and the exceeded branch returns an interrupt. Necessary for C09/C02: without the comparison on every cycle a program exceeds the limit unnoticed; with a non-strict memory guard the next variable access indexes Memory[len(Memory)] and the Go runtime panic kills the host"})
+		Doc: "resource limits are tests every execution passes: (1) every cycle of the VM's outer loop in Core.Run decides `len(Stack)` against Limits.StackMaxSize and `len(CallStack)` against Limits.CallStackMaxSize before any instruction runs, and each overflow branch sends a fatal interrupt on the core's signal channel and returns (helpers of the package that send, compare a limit or poll are spliced into the loop body); the instruction quantum between two such cycles is bounded by a compile-time constant; (2) the Opcode_AddMempointer case compares Core.MemoryPointer with Limits.MaxMemorySize after updating it, the overflow branch returns the fatal interrupt, and the continuing branch establishes MemoryPointer <= len(Memory)-1 for the frame indexing Memory[MemoryPointer-slot] — the bound is derived from the allocation `make(..., MaxMemorySize±k)` of Core.Memory and from the index expression, not from the operator text; (3) the interpreter's callFunc decides the call-depth counter against its limit before it evaluates anything or increments the counter, and the exceeded branch returns an interrupt. Necessary for C09/C02: without the comparison on every cycle a program exceeds the limit unnoticed; with a non-strict memory guard the next variable access indexes Memory[len(Memory)] and the Go runtime panic kills the host"})
 	register(&Rule{ID: "R-must-pass-cancel", Floor: 8, Run: ruleVMMustCancel,
 		Doc: "cancellation polls are passed by every execution: (1) the VM's poll function receives from the context's Done channel without blocking, yields an interrupt when it is closed and nil otherwise; every cycle of the outer loop of Core.Run passes the poll before instructions run and its positive branch signals and returns; (2) in the interpreter every iteration of every condition-less Go loop (the loops implementing loop/while/for) passes a poll on all paths, where a call counts if every non-panicking path through the callee polls (least fixpoint over the package); (3) VM.Wait calls the context's cancel function on every path that returns an interrupt. Necessary for C10: a loop iteration that can complete without polling makes `loop {}` uncancellable"})
 }
@@ -73,7 +73,7 @@ func vmRunOuter(c *Ctx) *vmRunLoops {
 	if rl.outer == nil {
 		fatalf("anchor unresolved: Core.Run has no loop around the call of the instruction dispatcher")
 	}
-	rl.res = vmWalk(vmWalkOpts{fn: fn, body: rl.outer.Body, replace: func(s ast.Stmt) (any, bool) {
+	rl.res = vmWalk(vmWalkOpts{fn: fn, body: rl.outer.Body, inline: vmRunInline(c), replace: func(s ast.Stmt) (any, bool) {
 		if f, ok := s.(*ast.ForStmt); ok && f == rl.inner {
 			return vmInnerQuantum{f}, true
 		}
@@ -93,6 +93,77 @@ func vmRunOuter(c *Ctx) *vmRunLoops {
 	}})
 	vmRunLoopsCache[c] = rl
 	return rl
+}
+
+// vmRunInline: the helpers of package runtime that matter to the rules about
+// the run loop — functions that (transitively) send on the core's signal
+// channel, compare a configured limit, test the handler stack, poll the
+// cancellation context or select on Done(). The poll functions themselves and
+// the instruction dispatcher stay calls (they are the rules' anchors).
+var vmRunInlineCache = map[*Ctx]func(callee *vmFn, call *ast.CallExpr) bool{}
+
+func vmRunInline(c *Ctx) func(callee *vmFn, call *ast.CallExpr) bool {
+	if f := vmRunInlineCache[c]; f != nil {
+		return f
+	}
+	roles := vmRoles(c)
+	rt := c.Pkg("homescript/runtime")
+	signal := vmStructField(rt, "Core", "SignalHandle")
+	handlers := vmStructField(rt, "Core", "ExceptionCatchLabels")
+	limits := map[*types.Var]bool{}
+	if lt := rt.Types.Scope().Lookup("CoreLimits"); lt != nil {
+		if st, ok := lt.Type().Underlying().(*types.Struct); ok {
+			for i := 0; i < st.NumFields(); i++ {
+				limits[st.Field(i)] = true
+			}
+		}
+	}
+	polls := vmPollFns(roles.fns)
+	closer := vmNewCloser(c, func(fn *vmFn, n ast.Node) bool {
+		switch x := n.(type) {
+		case *ast.SendStmt:
+			return vmFieldOf(fn.info, x.Chan) == signal
+		case *ast.BinaryExpr:
+			switch x.Op {
+			case token.GTR, token.GEQ, token.LSS, token.LEQ, token.EQL, token.NEQ:
+				found := false
+				ast.Inspect(x, func(m ast.Node) bool {
+					if sel, ok := m.(*ast.SelectorExpr); ok {
+						if s := fn.info.Selections[sel]; s != nil {
+							if v, ok := s.Obj().(*types.Var); ok && (limits[v] || v == handlers) {
+								found = true
+							}
+						}
+					}
+					return !found
+				})
+				return found
+			}
+		case *ast.CallExpr:
+			if _, isPoll := polls[vmOrigin(CalleeOf(fn.info, x))]; isPoll {
+				return true
+			}
+		case *ast.SelectStmt:
+			return vmIsDoneRecv(fn.info, x)
+		}
+		return false
+	})
+	disp := vmDefaultInline(roles.dispatch)
+	f := func(callee *vmFn, call *ast.CallExpr) bool {
+		if callee.pkg != roles.run.pkg {
+			return false
+		}
+		obj, _ := callee.info.Defs[callee.fd.Name].(*types.Func)
+		if _, isPoll := polls[obj]; isPoll || roles.nodes[obj] != nil || roles.handlers[obj] != nil {
+			return false
+		}
+		if disp != nil && disp(callee, call) {
+			return false
+		}
+		return closer.relevant(callee)
+	}
+	vmRunInlineCache[c] = f
+	return f
 }
 
 // vmLenOfField: e is len(x.F) for field F.
@@ -140,7 +211,8 @@ func vmNormCmp(e ast.Expr) vmCmpAtom {
 
 // vmLimitDecision: for a cond event, is it a comparison of len(stackField)
 // with limitField, and does the decision taken mean "limit exceeded"?
-func vmLimitDecision(info *types.Info, e vmEv, stackField, limitField *types.Var) (is, exceeded bool) {
+func vmLimitDecision(info *types.Info, p *vmPath, j int, stackField, limitField *types.Var) (is, exceeded bool) {
+	e := p.ev[j]
 	if e.K != evCond {
 		return false, false
 	}
@@ -148,6 +220,9 @@ func vmLimitDecision(info *types.Info, e vmEv, stackField, limitField *types.Var
 	if !a.recognised {
 		return false, false
 	}
+	// operands held in locals (`limit := int(self.Limits.StackMaxSize)`) are looked through
+	a.x, _, _ = vmResolveAt(info, p.binds, p.ev, j, vmStripConv(info, a.x))
+	a.y, _, _ = vmResolveAt(info, p.binds, p.ev, j, vmStripConv(info, a.y))
 	switch {
 	case vmLenOfField(info, a.x, stackField) && vmMentionsField(info, a.y, limitField):
 		// len > limit (or >=): holds ⇒ exceeded
@@ -183,11 +258,16 @@ func vmSignalsAndReturns(c *Ctx, fn *vmFn, p *vmPath, from int, signal *types.Va
 	for i := from + 1; i < len(p.ev); i++ {
 		e := p.ev[i]
 		if e.K == evSend && vmFieldOf(fn.info, e.X) == signal {
-			if vmIsNil(fn.info, e.Val) {
+			val := e.Val
+			if p.binds != nil {
+				// the value travelled through the parameter of a helper (`self.signal(x)`)
+				val, _, _ = vmResolveAt(fn.info, p.binds, p.ev, i, val)
+			}
+			if vmIsNil(fn.info, val) {
 				return false, "nil is sent on the signal channel"
 			}
 			if wantFatal {
-				call, isCall := ast.Unparen(e.Val).(*ast.CallExpr)
+				call, isCall := ast.Unparen(val).(*ast.CallExpr)
 				fatal := vmFuncObj(c, "homescript/runtime/value", "NewVMFatalException")
 				if !isCall || !vmReturnsVia(c, CalleeOf(fn.info, call), fatal, 0) {
 					return false, fmt.Sprintf("the value sent (`%s`) is not built by value.NewVMFatalException", vmTrunc(exprStr(e.Val), 60))
@@ -230,7 +310,7 @@ func ruleVMMustLimits(c *Ctx) []Obligation {
 			m := vmIndexOfMarker(p)
 			first, firstExceeded := -1, false
 			for j, e := range p.ev {
-				if is, ex := vmLimitDecision(fn.info, e, sf, lf); is {
+				if is, ex := vmLimitDecision(fn.info, p, j, sf, lf); is {
 					first, firstExceeded = j, ex
 					pos = e.Pos
 					break
@@ -269,22 +349,55 @@ func ruleVMMustLimits(c *Ctx) []Obligation {
 		} else {
 			pos = rl.inner.Pos()
 			f := rl.inner
-			a := vmNormCmp(f.Cond)
+			// the loop counts a local from/to compile-time constants in unit steps:
+			//   for c := …; c < K; c++      (also  K > c,  c <= K,  c != K)
+			//   for c := K; c > 0; c--      (also  0 < c,  c >= 1,  c != 0)
 			var ctr types.Object
-			okShape := false
-			if a.recognised {
-				// c < K  ≡ K > c
-				if tv := fn.info.Types[a.x]; tv.Value != nil {
-					ctr = vmObjOf(fn.info, a.y)
-					okShape = ctr != nil
+			isConst := func(e ast.Expr) bool { return e != nil && fn.info.Types[e].Value != nil }
+			dir := 0 // +1 counts up to a constant, -1 counts down to a constant, 0 unknown (c != K)
+			var neqBound ast.Expr
+			if a := vmNormCmp(f.Cond); a.recognised {
+				switch {
+				case isConst(a.x) && !isConst(a.y): // K > c
+					ctr, dir = vmObjOf(fn.info, a.y), +1
+				case isConst(a.y) && !isConst(a.x): // c > K
+					ctr, dir = vmObjOf(fn.info, a.x), -1
+				}
+			} else if b, ok := ast.Unparen(f.Cond).(*ast.BinaryExpr); ok && b.Op == token.NEQ {
+				switch {
+				case isConst(b.Y) && !isConst(b.X):
+					ctr, neqBound = vmObjOf(fn.info, b.X), b.Y
+				case isConst(b.X) && !isConst(b.Y):
+					ctr, neqBound = vmObjOf(fn.info, b.Y), b.X
 				}
 			}
+			okShape := ctr != nil
 			if !okShape {
-				bad = append(bad, fmt.Sprintf("the inner loop condition `%s` is not `counter < compile-time constant`", exprStr(f.Cond)))
+				bad = append(bad, fmt.Sprintf("the inner loop condition `%s` does not compare a counter with a compile-time constant", exprStr(f.Cond)))
 			} else {
 				inc, ok := f.Post.(*ast.IncDecStmt)
-				if !ok || inc.Tok != token.INC || vmObjOf(fn.info, inc.X) != ctr {
-					bad = append(bad, "the inner loop does not increment its counter in the post statement")
+				step := 0
+				if ok && vmObjOf(fn.info, inc.X) == ctr {
+					step = map[token.Token]int{token.INC: +1, token.DEC: -1}[inc.Tok]
+				}
+				initConst := false
+				if as, ok := f.Init.(*ast.AssignStmt); ok && len(as.Lhs) == 1 && len(as.Rhs) == 1 && vmObjOf(fn.info, as.Lhs[0]) == ctr && isConst(as.Rhs[0]) {
+					initConst = true
+				}
+				switch {
+				case step == 0:
+					bad = append(bad, "the inner loop does not step its counter by one in the post statement")
+				case dir != 0 && step != dir:
+					bad = append(bad, fmt.Sprintf("the inner loop steps its counter away from the bound of `%s`", exprStr(f.Cond)))
+				case (dir <= 0 || step < 0) && !initConst:
+					bad = append(bad, "the inner loop counts down (or to an exact value) from a start that is not a compile-time constant")
+				case neqBound != nil:
+					// c != K is only a bound when the counter moves towards K
+					as := f.Init.(*ast.AssignStmt)
+					from, to := fn.info.Types[as.Rhs[0]].Value, fn.info.Types[neqBound].Value
+					if (step > 0 && !constant.Compare(from, token.LEQ, to)) || (step < 0 && !constant.Compare(from, token.GEQ, to)) {
+						bad = append(bad, fmt.Sprintf("the inner loop steps its counter away from the value `%s` it stops at", exprStr(neqBound)))
+					}
 				}
 				ast.Inspect(f.Body, func(n ast.Node) bool {
 					switch x := n.(type) {
@@ -516,7 +629,10 @@ func vmMemGuard(c *Ctx, roles *vmVMRoles) []Obligation {
 	}
 	// (3) the guard on the paths of the case
 	tops := map[token.Pos]bool{roles.dispSw.Pos(): true}
-	res := vmWalk(vmWalkOpts{fn: fn})
+	dispInline, runInline := vmDefaultInline(fn), vmRunInline(c)
+	res := vmWalk(vmWalkOpts{fn: fn, inline: func(callee *vmFn, call *ast.CallExpr) bool {
+		return (dispInline != nil && dispInline(callee, call)) || runInline(callee, call)
+	}})
 	var badStrict, badBranch []string
 	nCont, nOver := 0, 0
 	need := a - b - 1 // MemoryPointer <= MaxMemorySize + need
@@ -542,6 +658,16 @@ func vmMemGuard(c *Ctx, roles *vmVMRoles) []Obligation {
 			if !at.recognised {
 				continue
 			}
+			// operands held in locals (`capacity := int(self.Limits.MaxMemorySize)`) are looked through;
+			// a local that captured the memory pointer before its last update is not the memory pointer
+			look := func(x ast.Expr) ast.Expr {
+				r, k, _ := vmResolveAt(info, p.binds, p.ev, j, vmStripConv(info, x))
+				if r != nil && vmMentionsField(info, r, mp) && k < lastWrite {
+					return x
+				}
+				return r
+			}
+			at.x, at.y = look(at.x), look(at.y)
 			xmp := vmFieldOf(info, vmStripConv(info, at.x)) == mp
 			ymp := vmFieldOf(info, vmStripConv(info, at.y)) == mp
 			var k int64
@@ -626,16 +752,86 @@ func vmMemGuard(c *Ctx, roles *vmVMRoles) []Obligation {
 
 // --------------------------------------------------- interpreter call limit
 
+// vmWrapperIncrements: the wrapper (or a wrapper it calls) increments the counter field.
+func vmWrapperIncrements(c *Ctx, g *vmFn, counter *types.Var, w *vmWrapperFinder, depth int) bool {
+	found := false
+	ast.Inspect(g.fd.Body, func(n ast.Node) bool {
+		switch x := n.(type) {
+		case *ast.IncDecStmt:
+			if x.Tok == token.INC && vmFieldOf(g.info, x.X) == counter {
+				found = true
+			}
+		case *ast.CallExpr:
+			if depth < 3 {
+				if f := CalleeOf(g.info, x); f != nil && w.isWrapper(f) {
+					if h := vmDeclIndex(c).of(f); h != nil && vmWrapperIncrements(c, h, counter, w, depth+1) {
+						found = true
+					}
+				}
+			}
+		}
+		return !found
+	})
+	return found
+}
+
 func vmInterpLimit(c *Ctx) []Obligation {
 	r := vmInterp(c)
 	var obs []Obligation
 	found := 0
-	for _, fn := range r.fns {
-		// functions that increment the counter
+	// helpers are spliced in: the enter-frame wrappers found by R-pairing-interp (the increment
+	// may live in one) and functions whose own body compares the counter with the limit
+	bal := vmInterpBalance(c)
+	comparesLimit := func(g *vmFn) bool {
+		found := false
+		ast.Inspect(g.fd.Body, func(n ast.Node) bool {
+			if b, ok := n.(*ast.BinaryExpr); ok {
+				switch b.Op {
+				case token.GTR, token.GEQ, token.LSS, token.LEQ:
+					x, y := vmFieldOf(g.info, vmStripConv(g.info, b.X)), vmFieldOf(g.info, vmStripConv(g.info, b.Y))
+					if (x == r.counter && y == r.limit && y != nil) || (y == r.counter && x == r.limit && x != nil) {
+						found = true
+					}
+				}
+			}
+			return !found
+		})
+		return found
+	}
+	incrementsDirectly := func(g *vmFn) bool {
 		incs := false
-		ast.Inspect(fn.fd.Body, func(n ast.Node) bool {
-			if x, ok := n.(*ast.IncDecStmt); ok && x.Tok == token.INC && vmFieldOf(fn.info, x.X) == r.counter {
+		ast.Inspect(g.fd.Body, func(n ast.Node) bool {
+			if x, ok := n.(*ast.IncDecStmt); ok && x.Tok == token.INC && vmFieldOf(g.info, x.X) == r.counter {
 				incs = true
+			}
+			return true
+		})
+		return incs
+	}
+	var inline func(callee *vmFn, call *ast.CallExpr) bool
+	inline = func(callee *vmFn, call *ast.CallExpr) bool {
+		if callee.pkg != c.Pkg("homescript/interpreter") {
+			return false
+		}
+		obj, _ := callee.info.Defs[callee.fd.Name].(*types.Func)
+		if bal.wrappers.isWrapper(obj) {
+			return true
+		}
+		return comparesLimit(callee) && !incrementsDirectly(callee)
+	}
+	for _, fn := range r.fns {
+		// the units: functions that increment the counter themselves or through a wrapper,
+		// the wrappers excluded (they are decided where they are spliced in)
+		obj, _ := fn.info.Defs[fn.fd.Name].(*types.Func)
+		if bal.wrappers.isWrapper(obj) {
+			continue
+		}
+		incs := incrementsDirectly(fn)
+		ast.Inspect(fn.fd.Body, func(n ast.Node) bool {
+			if call, ok := n.(*ast.CallExpr); ok && !incs {
+				if g := vmDeclIndex(c).of(CalleeOf(fn.info, call)); g != nil && bal.wrappers.isWrapper(CalleeOf(fn.info, call)) && vmWrapperIncrements(c, g, r.counter, bal.wrappers, 0) {
+					incs = true
+				}
 			}
 			return true
 		})
@@ -647,7 +843,7 @@ func vmInterpLimit(c *Ctx) []Obligation {
 			obs = append(obs, Obligation{Key: fn.name + "|call-depth limit", Pos: c.Pos(fn.fd.Pos()), Status: Violated, Detail: "the call-depth counter " + vmFieldName(r.counter) + " is never compared with a limit field"})
 			continue
 		}
-		res := vmWalk(vmWalkOpts{fn: fn})
+		res := vmWalk(vmWalkOpts{fn: fn, inline: inline})
 		var badEntry, badBranch []string
 		nOk, nOver := 0, 0
 		pkgT := fn.pkg.Types
@@ -924,7 +1120,21 @@ func ruleVMMustCancel(c *Ctx) []Obligation {
 	// (3) Wait calls the cancel function on the interrupt branch
 	{
 		wait := vmMustFn(c, "homescript/runtime", "VM", "Wait")
-		res := vmWalk(vmWalkOpts{fn: wait})
+		isCancelCall := func(info *types.Info, call *ast.CallExpr) bool {
+			if CalleeOf(info, call) != nil {
+				return false
+			}
+			nt := vmNamed(info.TypeOf(call.Fun))
+			return nt != nil && nt.Obj().Name() == "CancelFunc" && nt.Obj().Pkg() != nil && nt.Obj().Pkg().Path() == "context"
+		}
+		// the cancellation may be written in a helper of the package
+		cancels := vmNewCloser(c, func(fn *vmFn, n ast.Node) bool {
+			call, ok := n.(*ast.CallExpr)
+			return ok && isCancelCall(fn.info, call)
+		})
+		res := vmWalk(vmWalkOpts{fn: wait, inline: func(callee *vmFn, call *ast.CallExpr) bool {
+			return callee.pkg == wait.pkg && cancels.relevant(callee)
+		}})
 		var bad []string
 		n := 0
 		for i := range res.paths {
@@ -939,10 +1149,8 @@ func ruleVMMustCancel(c *Ctx) []Obligation {
 			n++
 			called := false
 			for _, e := range p.ev {
-				if e.K == evCall && e.Fn == nil && e.Call != nil {
-					if nt := vmNamed(wait.info.TypeOf(e.Call.Fun)); nt != nil && nt.Obj().Name() == "CancelFunc" && nt.Obj().Pkg() != nil && nt.Obj().Pkg().Path() == "context" {
-						called = true
-					}
+				if e.K == evCall && e.Fn == nil && e.Call != nil && isCancelCall(wait.info, e.Call) {
+					called = true
 				}
 			}
 			if !called {
